@@ -78,6 +78,17 @@ CLAIMED = {
             "NOT decided: |rho| <= 1 and positive semi-definiteness (consequences of the Pearson form, Cauchy-Schwarz not mechanised), "
             "covariance inputs (J1 Sigma J2^T), _smooth_eigenvalues (trace), invert_corr_cov_cholesky, error_band, the rank warning, "
             "permutation equivariance as such (it follows from (1): entries depend only on the pair)."),
+    "C09": ("symbolic execution with the user function uninterpreted, symbolic differentiation (chain rule with D<i>_F symbols) for autograd.jacobian, an uninterpreted exact integral for scipy's quadrature; z3; native end-to-end harness",
+            "Proof for an ARBITRARY differentiable user function: find_root(d, func) returns derived_observable(value -> root, [d], man_grad = "
+            "[-(dG/dd)/(dG/dx)]) with G(root, d) = 0 (the inverse-function rule); quad(func, p, a, b) (parameter list enumerated over "
+            "Obs / float patterns of length 1..3, each limit Obs or float) returns scipy's integral when nothing is an observable and "
+            "otherwise an observable with central value INT_a^b F(p, x) dx, operands = observable parameters followed by observable limits, "
+            "and gradients = INT dF/dp_i dx for each observable parameter, -F(p, a) for an observable lower limit, +F(p, b) for an observable "
+            "upper limit, in the order of the operands.",
+            "DESIGN.md section 6 C09",
+            "Assumed: autograd.jacobian is the exact derivative, scipy.integrate.quad the exact integral (abserr ignored), fsolve converged; "
+            "what derived_observable does with operands and gradients is C01 (stub that records them). NOT decided: vector-valued d in "
+            "find_root, integration kwargs, agreement with the explicitly inverted function beyond first order."),
     "C13": ("symbolic execution of export_jackknife / import_jackknife (structured-matrix model of ones - (n-1) identity) + arithmetic lemmas",
             "Proof: export_jackknife returns [value, (n value - x_i)/(n-1)] for every i and rejects observables with more than one chain; "
             "import_jackknife returns a well-formed single-chain observable with value jacks[0], the given configuration list and samples "
@@ -116,6 +127,17 @@ CLAIMED = {
             "Assumed file model: read(n) returns min(n, remaining) bytes, struct.unpack raises unless the buffer has exactly calcsize bytes. NOT "
             "decided: read_rwms, sfqcd branch of _read_flow_obs, read_ms5_xsf, read_pbp, sfcf text formats, json.gz / xml.gz / csv.gz archives; "
             "that an uncut file is read without an exception."),
+    "C19": ("symbolic execution over a structured-string model of number formatting (which number, how many decimals, which flags) + z3; native parsing of the real strings",
+            "Proof: _format_uncertainty(value, error, significance) renders the value with D = max(0, significance - 1 - floor(log10(error))) "
+            "decimals and the error at the same decimal place (as integer error * 10^D or with D decimals), the plain value when the error is "
+            "zero, TypeError / ValueError exactly for a non-int / non-positive significance (all reals, all integers); Obs.__str__ / __repr__ "
+            "are that text with two significant digits; Obs.__format__ (enumerated specs) takes the significance from the spec and the '+' / ' ' "
+            "flag only adds a leading character when the value is not negative; CObs.__str__ / __format__ print both parts this way; "
+            "__lt__/__le__/__gt__/__ge__, __float__ and is_zero_within_error are exactly the stated functions of central value and error.",
+            "DESIGN.md section 6 C19",
+            "Assumed (pyvc/lib_fmt.py): CPython renders '{:.Nf}' correctly rounded and the first character of a rendering is '-' iff the "
+            "number is negative; log10 uninterpreted, floor exact. NOT decided: _extract_val_and_dval / _construct_prior_obs (string parsing), "
+            "Corr.plottable, is_zero itself, NaN / inf / negative-zero inputs, half-unit read-back accuracy (it is the correct rounding assumed above)."),
     "C20": ("exact finite evaluation of the AST tables + symbolic execution with z3 (all integers) + vjp identity over an uninterpreted K_n",
             "Proof. The module-level gamma matrices are read from the AST as exact Gaussian rationals and all Clifford / hermiticity / gamma5 "
             "relations and all 16 Grid_gamma branches are decided by exact arithmetic (finite domain, exhaustive). epsilon_tensor and "
